@@ -445,7 +445,37 @@ def _subclass_values():
                     yield ["source", [["set", "a", 1], ["set", "d", copy.deepcopy(val)], sp], 2]
 
 
+def _dropped_key():
+    """A key that an earlier nested sequence exports, that is overridden afterwards and then
+    dropped by a Split whose branches disagree on it: the elements after the Split do not see
+    it - also in containers that set the context of their elements twice (Source, fill
+    sequences)."""
+    n = 0
+    for other in (None, ["set", "b", 1]):
+        for root in ("seq", "source", "fcseq", "frseq", "split-branch"):
+            n += 1
+            body = [["seq", [["set", "a", 3], ["data", "inc"]]], ["set", "a", 2],
+                    ["split", [["tuple", [["set", "a", 3], ["data", "inc"]]],
+                               ["tuple", [["data", "dbl"]]]]],
+                    ["ucfs", "uX%d" % n], ["mkfn", "mX%d" % n, {"filename": "f_{{b}}"}, False],
+                    ["store", "sX%d" % n]]
+            if other:
+                body = [copy.deepcopy(other)] + body
+            if root == "seq":
+                yield ["seq", body]
+            elif root == "source":
+                yield ["source", body, 0]
+            elif root == "fcseq":
+                yield ["fcseq", [["acc", "fc"]] + body]
+            elif root == "frseq":
+                yield ["frseq", [["acc", "fr"]] + body]
+            else:
+                yield ["seq", [["split", [["source", body, 0], ["tuple", [["data", "inc"]]]]]]]
+
+
 def cases(tier, seed):
+    for tree in _dropped_key():
+        yield {"k": "tree", "tree": tree, "flow": FLOW, "vseed": 5, "nv": NVARIANTS[tier]}
     for tree in _subclass_values():
         yield {"k": "tree", "tree": tree, "flow": FLOW, "vseed": 4, "nv": NVARIANTS[tier]}
     for tree in _cache_branches():
@@ -871,6 +901,39 @@ def _case(r, obs, tmp):
                      "SetContext value %r at %r cannot be resolved (missing %r) but "
                      "_get_context() returned %r" % (unresolved.template, unresolved.path,
                                                      unresolved.component, got), tree=tree)
+        # ---- (3b) the elements that are not downstream of an unresolvable SetContext (earlier
+        # ones, and those in sibling branches of a Split) still see the fold of THEIR enclosing
+        # sequences
+        work = copy.deepcopy(tree)
+        failing = []
+        while True:
+            try:
+                _, rec2 = M.fold(work)
+                break
+            except M.Unresolved as u:
+                failing.append(u.path)
+                parent = M.node_at(work, u.path[:-1])
+                parent[1][u.path[-1]] = ["data", "inc"]
+        obs2 = observe(A, rec2, os.path.join(tmp, "a"), obs)
+        for label, recd in rec2.items():
+            if label.startswith("#"):
+                continue
+            p = recd["path"]
+            if any(M.affects(tree, q, p) for q in failing):
+                obs.count("consumers_downstream_of_an_unresolvable_key")
+                continue
+            comparable, exp = M.expect_static(recd)
+            if not comparable:
+                continue
+            obs.count("static_observations")
+            obs.count("consumers_beside_an_unresolvable_key")
+            obs.check(obs2[label] == exp,
+                      "static-context-differs:beside-an-unresolvable-key:" +
+                      M.KIND_NAME[recd["kind"]],
+                      "%s %r at path %r observed %r, the fold of its enclosing sequences gives %r; "
+                      "the tree has unresolvable SetContext element(s) at %r, none of them "
+                      "upstream of it" % (M.KIND_NAME[recd["kind"]], recd["item"], p, obs2[label],
+                                          exp, failing), tree=tree)
         return
 
     # ---- (1) root context and every consumer against the fold
@@ -1091,3 +1154,6 @@ RULE += (' Added: FillComputeSeq / FillRequestSeq nodes and tuple branches holdi
          'written differently (1 / 1.0 / True); every tree with a Cache is built a second time in '
          'the same directory after its run (cache files exist) and observed again; run-time '
          'context values 1 / 1.0 / True.')
+RULE += (' Added: for trees with an unresolvable key, the elements that are not downstream of it '
+         '(earlier ones, sibling branches) are still judged against the fold of their enclosing '
+         'sequences; a family in which a Split drops a key that an earlier pass had set.')
